@@ -437,6 +437,7 @@ type respCase struct {
 	msgIDs                   L
 	serverCodec, clientCodec string
 	readFault                bool // the handler reads the (faulty) request somewhere while it responds
+	readFaultClass           int64
 }
 
 // respReadFaults enables scenarios in which the request side fails while the response is under way
@@ -469,10 +470,21 @@ func genResp(r *rng, limits []uint32) *respCase {
 		return nil // pass-through: no response adapter
 	}
 	req := spec.build()
-	readFault := respReadFaults && formEnveloped(form) && r.chance(1, 6)
+	readFault := respReadFaults && (formEnveloped(form) || (form == formConnectPost && !sameCodec)) && r.chance(1, 6)
+	faultClass := int64(3)
 	if readFault {
-		// after the valid request messages: an envelope with an illegal flag byte
-		req.Chunks = append(req.Chunks[:len(req.Chunks):len(req.Chunks)], []byte{7, 0, 0, 0, 1, 'x'})
+		if formEnveloped(form) {
+			// after the valid request messages: an envelope with an illegal flag byte
+			req.Chunks = append(req.Chunks[:len(req.Chunks):len(req.Chunks)], []byte{7, 0, 0, 0, 1, 'x'})
+		} else {
+			// a unary body the client's codec cannot decode: the failure surfaces when the handler reads
+			garbage := []byte(`{"name": nonsense`)
+			if clientCodec == "proto" {
+				garbage = []byte{0x0a, 0xff, 0xff, 0xff}
+			}
+			req.Chunks = [][]byte{garbage}
+			faultClass = 2
+		}
 	}
 	in2, ok := creqV(req)
 	if !ok {
@@ -581,7 +593,7 @@ func genResp(r *rng, limits []uint32) *respCase {
 		b.DeclLower = true
 	}
 	return &respCase{cfg: cfg, form: form, target: target, streaming: streaming, req: req, in2: in2, b: b, tables: tables, lim: lim, tag: tag, seed: r.next(),
-		newResp: newResp, serverCodec: serverCodec, clientCodec: clientCodec, msgIDs: msgIDs, readFault: readFault}
+		newResp: newResp, serverCodec: serverCodec, clientCodec: clientCodec, msgIDs: msgIDs, readFault: readFault, readFaultClass: faultClass}
 }
 
 // run executes the scenario with the given write segmentation (-1: as generated)
@@ -614,7 +626,7 @@ func (rc *respCase) run(split int) (in L, out L, view clientView, res scenarioRe
 	script := b.script(r, et)
 	if rc.readFault {
 		at := (&rng{s: rc.seed}).intn(len(script) + 1)
-		script = append(append(append([]action(nil), script[:at]...), action{Op: "readfault", N: 3}), script[at:]...)
+		script = append(append(append([]action(nil), script[:at]...), action{Op: "readfault", N: int(rc.readFaultClass)}), script[at:]...)
 	}
 	res = runScenario(rc.cfg, rc.req, script, nil)
 	if res.BuildErr != "" {
@@ -647,6 +659,7 @@ func (rc *respCase) run(split int) (in L, out L, view clientView, res scenarioRe
 		rc.tables.learn(body, rc.newResp, rc.serverCodec, rc.clientCodec, lim)
 	}
 	lenient := false
+	boundaryCut := false
 	if cutEffective > 0 && !envelopedTarget {
 		// a shorter body from a backend without message framing is only detectable if it has
 		// to be decoded: either outcome is acceptable
@@ -655,6 +668,7 @@ func (rc *respCase) run(split int) (in L, out L, view clientView, res scenarioRe
 	if cutEffective > 0 && envelopedTarget && checkFrames(body) == "" {
 		// cut exactly at a frame boundary: a well-formed shorter stream
 		cutEffective = 0
+		boundaryCut = true
 		if b.Target != vanguard.ProtocolGRPC {
 			lenient = true // the end frame itself may have been cut off
 		}
@@ -730,8 +744,15 @@ func (rc *respCase) run(split int) (in L, out L, view clientView, res scenarioRe
 			wi++
 		}
 	}
+	// the messages the backend actually finished: after a cut at a frame boundary fewer than it meant to send
+	ids := rc.msgIDs
+	if boundaryCut {
+		if n := countDataFrames(body, target); n < len(ids) {
+			ids = ids[:n]
+		}
+	}
 	intent := L{int64(form), wellformed, kind, b.ErrCode, B(b.ErrMsg), b.errValue()[2], hdrOf(trailers), hdrOf(b.Headers),
-		target == vanguard.ProtocolConnect && !streaming, int64(b.BareStatus), b.TrailersOnly, lenient, rc.msgIDs, progress}
+		target == vanguard.ProtocolConnect && !streaming, int64(b.BareStatus), b.TrailersOnly, lenient, ids, progress}
 	in = L{tconfV(rc.cfg), rc.in2, scriptV(script), rc.tables.value(), et.value(), endLen, intent}
 	return in, out, view, res, true
 }
